@@ -5,7 +5,7 @@
    [sgr_codes], [well_formed], [print_codes], [strict_u8], [spec_ls] are the
    independent specification (Spec/SgrCodes.v). *)
 From Coq Require Import NArith List Bool.
-From AV Require Import Spec.StyleRec Spec.SgrCodes Model.Ls Proofs.LsParse.
+From AV Require Import Spec.StyleRec Spec.SgrCodes Model.Ls Proofs.LsParse Generated.LsFn Proofs.LsGen.
 Import ListNotations.
 Local Open Scope N_scope.
 
@@ -46,3 +46,19 @@ Theorem c12_ls_model_is_spec : forall s : list N,
   spec_ls s <> LsOpen ->
   ls_parse s = Some (match spec_ls s with LsStyle st => Some st | _ => None end).
 Proof. exact ls_model_is_spec. Qed.
+
+(* ---- the tie by translation --------------------------------------------------------- *)
+
+(* Generated/LsFn.v is written on every run by tools/gen_fn_text.py (tools/rs2v) from the Rust
+   source of anstyle_ls::parse -- the early return, split(';') / parse::<u8> / collect::<Option<_>>,
+   the `while let Some(part) = parts.pop_front()` loop with every arm, the look-ahead pop_fronts
+   and breaks, the final Style -- and computes, on every input, exactly what the hand model (the
+   subject of every theorem above) computes; None = panic included. *)
+Theorem c12_translated_parse_is_model : forall s : list N, g_ls_parse s = ls_parse s.
+Proof. exact g_ls_parse_eq. Qed.
+
+(* hence the translated code satisfies the specification wherever it decides *)
+Theorem c12_translated_parse_is_spec : forall s : list N,
+  spec_ls s <> LsOpen ->
+  g_ls_parse s = Some (match spec_ls s with LsStyle st => Some st | _ => None end).
+Proof. intros s H. rewrite g_ls_parse_eq. exact (ls_model_is_spec s H). Qed.
